@@ -70,8 +70,15 @@ class Sim:
             try:
                 res = self.loop.run_until_complete(coro)
             except BaseException:
-                # finalise async generators abandoned by the exception (avoids 'Task was destroyed' noise)
+                # A command that fails ends its process: whatever it left pending (e.g. sibling deletions of a
+                # failed gather) dies with it, exactly as asyncio.run() cancels leftover tasks. Without this the
+                # leftovers would run during the *next* command on this long-lived loop.
                 try:
+                    pending = [t for t in asyncio.all_tasks(self.loop) if not t.done()]
+                    for t in pending:
+                        t.cancel()
+                    if pending:
+                        self.loop.run_until_complete(asyncio.gather(*pending, return_exceptions=True))
                     self.loop.run_until_complete(self.loop.shutdown_asyncgens())
                 except Exception:
                     pass
